@@ -161,6 +161,7 @@ var keyPool = map[string]poolKey{
 	"K4":  {"k4", 8, []string{"s1", "s2", "s3"}, "pub", "c4"},
 	"K5":  {"k5", 7, []string{"s2"}, "pub", "c5"},
 	"K1b": {"k1", 7, []string{"s1", "s2", "s3"}, "pub", "c1b"},
+	"K6":  {"k6", 7, []string{"s1", "s2", "s3"}, "pub", "c6"},
 	"KX":  {"kx", 7, []string{"s1", "s2", "s3"}, "pub", "cx"}, // config bytes of an unknown version: held, never usable
 }
 
@@ -174,7 +175,7 @@ type keyring struct {
 
 func newKeyring(seed int64) *keyring {
 	kr := &keyring{privs: map[string]*ecdh.PrivateKey{}, cfgs: map[string][]byte{}}
-	for _, kid := range []string{"k1", "k2", "k3", "k4", "k5", "kx"} {
+	for _, kid := range []string{"k1", "k2", "k3", "k4", "k5", "k6", "kx"} {
 		h := sha256.Sum256([]byte(fmt.Sprintf("verif-key-%s-%d", kid, seed)))
 		p, err := ecdh.X25519().NewPrivateKey(h[:])
 		if err != nil {
